@@ -154,6 +154,63 @@ func helpers(ms []member, ps []part, topics int) {
 	}
 }
 
+var protoOf = map[string]string{"grange": "range", "grr": "roundrobin", "grack": "rack-affinity"}
+
+// canon32 renders what the members received (member => topic => partitions), sorted, empty lists dropped.
+func canon32(a map[string]map[string][]int32) string {
+	g := kafka.GroupMemberAssignments{}
+	for id, m := range a {
+		g[id] = map[string][]int{}
+		for t, ps := range m {
+			l := make([]int, len(ps))
+			for i, p := range ps {
+				l[i] = int(p)
+			}
+			g[id][t] = l
+		}
+	}
+	return canon(g)
+}
+
+// glue runs one whole rebalance round on the real leader glue (verif_export_c14b.go) and emits what every member
+// RECEIVES: ops grange / grr / grack with the same request format as range / rr / rack.  Repeated to sample the
+// iteration orders of the Go maps involved (GroupMemberAssignments, the per-member topic maps, RackAffinity's maps);
+// every distinct outcome is a case.  members[0] is the leader.
+func glue(op string, ms []member, ps []part, repeat int) {
+	if len(ms) == 0 {
+		return
+	}
+	req := op + " " + fmtMembers(ms) + " " + fmtParts(ps)
+	_, gp := toGo(ms, ps)
+	vm := make([]kafka.VerifC14Member, len(ms))
+	for i, m := range ms {
+		ts := make([]string, len(m.topics))
+		for j, t := range m.topics {
+			ts[j] = topicName(t)
+		}
+		vm[i] = kafka.VerifC14Member{ID: m.id, Topics: ts, Rack: zoneName(m.zone)}
+	}
+	seen := map[string]bool{}
+	for i := 0; i < repeat; i++ {
+		o := func() (res string) {
+			defer func() {
+				if r := recover(); r != nil {
+					res = "panic"
+				}
+			}()
+			got, _, err := kafka.VerifC14LeaderRound(protoOf[op], vm, gp)
+			if err != nil {
+				return "panic"
+			}
+			return canon32(got)
+		}()
+		if !seen[o] {
+			seen[o] = true
+			fmt.Fprintf(out, "%s\t%s\n", req, o)
+		}
+	}
+}
+
 // run emits the case for the named balancer; RackAffinity is called `repeat` times to sample Go's map
 // iteration orders and every distinct output becomes its own case line.
 func run(op string, ms []member, ps []part, repeat int) {
@@ -203,8 +260,9 @@ func permutations(n int) [][]int {
 	return res
 }
 
-// subscription patterns over two topics, including both listing orders of {0,1}
-var subs2 = [][]int{{}, {0}, {1}, {0, 1}, {1, 0}}
+// subscription listings over two topics: both listing orders of {0,1} and lists that repeat a topic (the list is user
+// input, ConsumerGroupConfig.Topics is not de-duplicated)
+var subs2 = [][]int{{}, {0}, {1}, {0, 1}, {1, 0}, {0, 0}, {1, 0, 1}}
 
 // mkParts lists counts[t] partitions of each topic t, interleaved at random, ids in a random order
 // (so that "listed order" and "id order" differ), leader racks uniform in [0, racks).
@@ -229,9 +287,9 @@ func main() {
 	defer out.Flush()
 	r := gen.New()
 	thorough := gen.Thorough()
-	rackRepeat := 4
+	rackRepeat, glueRepeat := 4, 3
 	if thorough {
-		rackRepeat = 12
+		rackRepeat, glueRepeat = 12, 8
 	}
 
 	// ---- 1. exhaustive small groups: members ≤ 4, topics ≤ 2, partitions ≤ 6 in total, every subscription
@@ -252,7 +310,7 @@ func main() {
 			}
 			for p0 := 0; p0 <= 6; p0++ {
 				for p1 := 0; p0+p1 <= 6; p1++ {
-					if n == 4 && !thorough && r.Intn(2) != 0 {
+					if n == 4 && !thorough && r.Intn(6) != 0 {
 						continue
 					}
 					caseNo++
@@ -285,6 +343,10 @@ func main() {
 						ms[i] = base[j]
 					}
 					run("rack", ms, ps, rackRepeat)
+					if n >= 2 || caseNo%3 == 0 {
+						op := []string{"grange", "grr", "grack"}[caseNo%3]
+						glue(op, ms, ps, glueRepeat)
+					}
 				}
 			}
 		}
@@ -324,6 +386,9 @@ func main() {
 					ts = append(ts, t)
 				}
 			}
+			if len(ts) > 0 && r.Intn(5) == 0 { // a repeated topic
+				ts = append(ts, ts[r.Intn(len(ts))])
+			}
 			ms = append(ms, member{id, r.Intn(racks), ts})
 		}
 		counts := make([]int, nt)
@@ -345,11 +410,13 @@ func main() {
 		run("rr", ms, ps, 1)
 		run("rack", ms, ps, rackRepeat)
 		helpers(ms, ps, nt)
+		glue("grange", ms, ps, glueRepeat)
+		glue("grr", ms, ps, glueRepeat)
+		glue("grack", ms, ps, glueRepeat)
 	}
 
-	// ---- 3. outside the hypotheses (duplicate topics in a member's list, equal member ids): the property
-	// does not quantify over these; they only check that the model still follows the code (oracle: holds=1)
-	{ // the two witnesses of Props/C14.lean §5
+	// the two regression witnesses of finding C14-D30 (Props/C14.lean §5)
+	{
 		ms := []member{{"m1", 0, []int{0, 0}}, {"m2", 0, []int{0}}}
 		var ps []part
 		for i := 0; i < 6; i++ {
@@ -358,18 +425,17 @@ func main() {
 		run("range", ms, ps, 1)
 		run("rack", []member{{"m7", 0, []int{0, 0}}}, []part{{0, 0, 1}, {0, 1, 1}}, rackRepeat)
 	}
+
+	// ---- 3. outside the hypothesis (equal member ids): the property speaks of a set of members; these cases only
+	// check that the model still follows the code (oracle: holds=1)
 	for k := 0; k < 300; k++ {
 		n := 2 + r.Intn(3)
 		ids := pickIDs(n, k)
 		ms := make([]member, n)
 		for i := range ms {
-			ms[i] = member{ids[i], 0, subs2[1+r.Intn(4)]}
+			ms[i] = member{ids[i], 0, subs2[1+r.Intn(6)]}
 		}
-		if k%2 == 0 {
-			ms[0].topics = append(append([]int{}, ms[0].topics...), ms[0].topics[0])
-		} else {
-			ms[1].id = ms[0].id
-		}
+		ms[1].id = ms[0].id
 		racks := 1 + r.Intn(3)
 		for i := range ms {
 			ms[i].zone = r.Intn(racks)
